@@ -31,11 +31,13 @@ SUB = {
 }
 
 
-def mc_strings(d, name, words, maxwords, userskip=(), invariants=ALL_INV, dump=True, sources=()):
-    defs = ['MCWords == {' + ', '.join(tlc.tla_seq(w) for w in words) + '}',
+def mc_strings(d, name, scopes, userskip=(), invariants=ALL_INV, dump=True, sources=()):
+    """scopes: list of (words, maxwords)"""
+    sc = ', '.join('[w |-> {%s}, n |-> %d]' % (', '.join(tlc.tla_seq(w) for w in ws), n) for ws, n in scopes)
+    defs = ['MCScopes == <<' + sc + '>>',
             'MCSources == {' + ', '.join(tlc.tla_seq(s) for s in sources) + '}',
             'MCUserSkip == {' + ', '.join(tlc.tla_seq(s) for s in userskip) + '}']
-    cfg = ['SPECIFICATION Spec', 'CONSTANTS', ' Words <- MCWords', ' MaxWords = %d' % maxwords,
+    cfg = ['SPECIFICATION Spec', 'CONSTANTS', ' Scopes <- MCScopes',
            ' Sources <- MCSources', ' UserSkip <- MCUserSkip']
     cfg += ['INVARIANT ' + i for i in invariants]
     if dump:
@@ -45,21 +47,22 @@ def mc_strings(d, name, words, maxwords, userskip=(), invariants=ALL_INV, dump=T
     tlc.write_mc(d, name, 'Strings', defs, '\n'.join(cfg) + '\n')
 
 
-def explore(chk, label, words, maxwords, userskip=(), invariants=ALL_INV, timeout=900, simulate=None, depth=None):
-    """Run TLC over all sources of <= maxwords words; returns the Result (records = experiments)."""
+def explore(chk, label, scopes, userskip=(), invariants=ALL_INV, timeout=900, simulate=None, depth=None, sources=()):
+    """Run TLC over all sources of the scopes [(words, maxwords), ...]; Result.records = experiments."""
     d = tlc.workdir('%s_%s' % (chk.pid, label))
-    mc_strings(d, 'MC', words, maxwords, userskip, invariants)
+    mc_strings(d, 'MC', scopes, userskip, invariants, sources=sources)
     res = tlc.run(d, 'MC', timeout=timeout, simulate=simulate, depth=depth, seed=chk.seed if simulate else None)
-    chk.add_tlc(label, res, 'Strings: %d-word alphabet, <= %d words%s' % (len(words), maxwords,
-                                                                             ', simulate' if simulate else ''))
+    chk.add_tlc(label, res, 'Strings: ' + '; '.join('%d words ^<=%d' % (len(w), n) for w, n in scopes)
+                + (', simulate' if simulate else ''))
     return res
 
 
-def spec_violations(chk, res, clause_of):
-    """An invariant violated inside TLC means MACHINE |/= CONTRACT: the model (written to do what the
-    code does) breaks the contract.  It is reported only if the code agrees - i.e. via the replay, never
-    from TLC alone; here we just remember the names."""
-    return [v for v in res.violated]
+def model_must_hold(chk, res):
+    """MACHINE |= CONTRACT is a statement about the specification alone (it does not change when the code
+    changes); a violated invariant therefore needs triage of the model, not a VIOLATION line."""
+    if res.violated:
+        raise tlc.MachineryError('the reference machine violates %s inside TLC (model-level counterexample in %s); '
+                                 'triage per DESIGN.md section 6' % (res.violated, res.cmd))
 
 
 def _cmp_one(args):
@@ -104,9 +107,9 @@ def validate(chk, observations, skip=(), label='trace', timeout=900, workers=16)
         for o in observations:
             o = {k: v for k, v in o.items() if not k.startswith('_')}
             f.write(json.dumps(o) + '\n')
-    defs = ['MCWords == {}', 'MCSources == {}',
+    defs = ['MCScopes == <<>>', 'MCSources == {}',
             'MCUserSkip == {' + ', '.join(tlc.tla_seq(s) for s in skip) + '}']
-    cfg = ('SPECIFICATION TSpec\nCONSTANTS\n Words <- MCWords\n MaxWords = 0\n Sources <- MCSources\n'
+    cfg = ('SPECIFICATION TSpec\nCONSTANTS\n Scopes <- MCScopes\n Sources <- MCSources\n'
            ' UserSkip <- MCUserSkip\nINVARIANT Verdict\nCHECK_DEADLOCK FALSE\n')
     tlc.write_mc(d, 'MCT', 'StringsTrace', defs, cfg)
     res = tlc.run(d, 'MCT', timeout=timeout, workers=workers)
@@ -155,7 +158,10 @@ def corpus_sources():
     for p in sorted(glob.glob('/repo/tests/*.py')) + sorted(glob.glob('/repo/TexSoup/*.py')) + \
             sorted(glob.glob('/repo/examples/*.py')):
         try:
-            t = ast.parse(open(p, encoding='utf-8').read())
+            import warnings
+            with warnings.catch_warnings():
+                warnings.simplefilter('ignore')
+                t = ast.parse(open(p, encoding='utf-8').read())
         except SyntaxError:
             continue
         for node in ast.walk(t):
@@ -191,4 +197,32 @@ def mutations(rng, docs, per_doc, alphabet):
                 out.append(d[:i] + rng.choice(alphabet) + d[i:])
             elif i + 1 < len(d):
                 out.append(d[:i] + d[i + 1] + d[i] + d[i + 2:])
+    return out
+
+
+def standard(chk, scopes, inv, clauses, what, extra_sources=(), sources=(), skip=(), timeout=3000, samples=6):
+    """TLC exploration of the scopes (MACHINE |= CONTRACT for inv) + replay + trace validation of extras."""
+    res = explore(chk, 'strings', scopes, userskip=skip, invariants=inv, timeout=timeout, sources=sources)
+    model_must_hold(chk, res)
+    bad = replay(chk, res.records, skip)
+    for r in res.records[:samples]:
+        chk.sample({'source': from_atoms(r['i']), 'strict': r['A']['o'], 'strict_out': from_atoms(r['A']['out']),
+                    'tolerant': r['B']['o'], 'tolerant_out': from_atoms(r['B']['out'])})
+    extra = list(dict.fromkeys(extra_sources))
+    exps = obs.experiments(extra, skip)
+    for e in exps:
+        chk.case(''.join(e['i']))
+    verdicts = validate(chk, bad + exps, skip, timeout=timeout)
+    judge(chk, verdicts, clauses, what)
+    chk.exhaustive = False
+    return res, verdicts
+
+
+def regression_inputs(pids):
+    """witnesses of fixed / known findings (replayed on every run)"""
+    from harness import core
+    out = []
+    for e in json.load(open(core.FINDINGS))['findings']:
+        if e.get('property') in pids:
+            out += e.get('witness', {}).get('inputs', [])
     return out
